@@ -46,7 +46,7 @@ Init ==
                  means |-> [lf \in AllLeaves(T) |-> <<0>>],
                  qg |-> <<1>>, Q |-> [i \in 1..nc |-> <<0>>], cells |-> [i \in 1..nc |-> 10 + i],
                  table |-> [p \in {Root} |-> {1}], B |-> BB, fnum |-> 1, fden |-> 1, flk |-> <<>>, K |-> KK,
-                 chunk |-> cs, P |-> P, minm |-> 1, votes |-> FALSE])
+                 chunk |-> cs, P |-> P, minm |-> 1, votes |-> FALSE, draws |-> TRUE])
     /\ final = <<>>
 
 NextChunk ==
